@@ -142,6 +142,16 @@ func shapeErr(kind string, err error) error {
 		return status.Error(codes.Canceled, err.Error())
 	case "grpc-deadline":
 		return status.Error(codes.DeadlineExceeded, err.Error())
+	case "grpc-unimplemented":
+		return status.Error(codes.Unimplemented, err.Error())
+	case "grpc-denied":
+		return status.Error(codes.PermissionDenied, err.Error())
+	case "grpc-unauthenticated":
+		return status.Error(codes.Unauthenticated, err.Error())
+	case "grpc-notfound":
+		return fmt.Errorf("transport: %w", status.Error(codes.NotFound, err.Error()))
+	case "grpc-invalid":
+		return status.Error(codes.InvalidArgument, err.Error())
 	}
 	return err
 }
